@@ -183,10 +183,10 @@ def part_format(ctx, d, dist):
 
 
 # ---------------------------------------------------------------- part (b): the matrix
-def run_main(argv, d, cores):
+def run_main(argv, d, cores, buffer_size=None):
     """in-process for one core, subprocess for several"""
     if cores > 1:
-        res = R.run_cli(argv, d, cores, buffer_size=None, trace=False)
+        res = R.run_cli(argv, d, cores, buffer_size=buffer_size, trace=False)
         return res["exit"], res["stderr"][-300:]
     import logging
     import cutadapt.cli as cli
@@ -230,6 +230,14 @@ def run_variant(case, d, v):
     def ser(rs):
         return "".join((">%s\n%s\n" % (n, s)) if fasta else ("@%s\n%s\n+\n%s\n" % (n, s, q)) for n, s, q in rs).encode()
 
+    if v.get("gt_names"):
+        # header comments containing '>' and '@' (on the first mate / on every other read only)
+        tag = lambda n, k: n + ((" " if " " not in n else "") + "len>%d@x" % k)
+        if case["paired"]:
+            recs = [((tag(a[0], i), a[1], a[2]), b) for i, (a, b) in enumerate(recs)]
+        else:
+            recs = [((tag(r[0], i), r[1], r[2]) if i % 2 == 0 else r) for i, r in enumerate(recs)]
+
     ic = v.get("in_comp", "")
     isuf = ".gz" if ic == ".gz-multi" else ic
     if case["paired"]:
@@ -253,11 +261,14 @@ def run_variant(case, d, v):
         if a.startswith(d) and bn.startswith("in."):
             a = a + isuf
         elif a.startswith(d) and bn.endswith("." + ext):
-            if v.get("fasta_out") and not fasta:
+            is_main = bn.startswith("out.")
+            if v.get("fasta_out") and not fasta and (is_main or not v.get("mixed_out")):
                 a = a[: -len(ext)] + "fasta"
+            elif v.get("mixed_out") and not fasta and not is_main and not v.get("fasta_out"):
+                a = a[: -len(ext)] + "fasta"   # redirect files as FASTA next to a FASTQ main output (and the other way round above)
             a = a + oc
         new.append(a)
-    code, err = run_main(new, d, v.get("cores", 1))
+    code, err = run_main(new, d, v.get("cores", 1), v.get("buffer_size"))
     out = {"exit": code, "err": err, "files": {}, "argv": [x.replace(d, "$D") for x in new]}
     if code != 0:
         return out
@@ -317,8 +328,17 @@ def rand_variant(rng, case, k):
             v["fasta_in"] = True
         elif r < 0.45:
             v["fasta_out"] = True
+    if not b.fasta and rng.random() < 0.3 and (b.too_short_output or b.too_long_output or b.untrimmed_output):
+        v["mixed_out"] = True
+    if rng.random() < 0.2 and not b.strip_suffix and b.rename is None:
+        v["gt_names"] = True
     if k == 0:
         v["cores"] = 2
+        if rng.random() < 0.5:
+            v["buffer_size"] = rng.choice([300, 512, 1000])
+        if case["paired"] and not b.fasta and quality_free(case) and rng.random() < 0.5 and not b.strip_suffix:
+            # the layout most at risk on several cores: interleaved FASTA, small chunks, '>' inside header comments
+            v.update(fasta_in=True, fasta_out=False, inter_in=True, gt_names=True, buffer_size=rng.choice([300, 512, 1000]))
     return v
 
 
@@ -344,12 +364,18 @@ def part_matrix(ctx, d, dist):
         ref_c = canon(ref["files"], paired, True)
         for k in range(nvar):
             v = rand_variant(rng, case, k)
+            if v.get("gt_names"):
+                ref_v = run_variant(case, d, {"gt_names": True})
+                if ref_v["exit"] != 0:
+                    continue
+            else:
+                ref_v = ref
             res = run_variant(case, d, v)
             key = (json.dumps(cfg.to_json(), sort_keys=True), json.dumps(v, sort_keys=True))
             ctx.count(key, any(len(x["records"]) for x in ref["files"].values()))
             for kk in ("in_comp", "out_comp"):
                 dist["%s=%s" % (kk, v.get(kk) or "plain")] = dist.get("%s=%s" % (kk, v.get(kk) or "plain"), 0) + 1
-            for kk in ("fasta_in", "fasta_out", "inter_in", "inter_out"):
+            for kk in ("fasta_in", "fasta_out", "inter_in", "inter_out", "mixed_out", "gt_names", "buffer_size"):
                 if v.get(kk):
                     dist[kk] = dist.get(kk, 0) + 1
             dist["cores=%d" % v["cores"]] = dist.get("cores=%d" % v["cores"], 0) + 1
@@ -359,8 +385,8 @@ def part_matrix(ctx, d, dist):
                               {"what": "exit %r: %s" % (res["exit"], res["err"]), **desc}, True)
                 continue
             probs = []
-            qual_cmp = has_qual and not v.get("fasta_in") and not v.get("fasta_out")
-            a = canon(ref["files"], paired, qual_cmp)
+            qual_cmp = has_qual and not v.get("fasta_in") and not v.get("fasta_out") and not v.get("mixed_out")
+            a = canon(ref_v["files"], paired, qual_cmp)
             bb = canon(res["files"], paired, qual_cmp)
             if a != bb:
                 stems = [s for s in sorted(set(a) | set(bb)) if a.get(s) != bb.get(s)]
@@ -447,7 +473,7 @@ def replay(doc):
             print("C19 replay: name %r: implementation %r, documented %r" % (r["name"], got, r["documented"]))
             return 1 if got[1] != r["documented"] else 0
         case = case_from_doc(r)
-        ref = run_variant(case, d, {})
+        ref = run_variant(case, d, {"gt_names": True} if r["variant"].get("gt_names") else {})
         res = run_variant(case, d, r["variant"])
         paired = r["paired"]
         same = res["exit"] == 0 and canon(ref["files"], paired, False) == canon(res["files"], paired, False)
